@@ -611,8 +611,8 @@ class Discharger:
         if name == "repl::run_with_interpreter" and what == "Result::unwrap":
             src = self._unwrap_src(f, t)
             return allow(1, "D-io-main: stdout().flush() in the interactive front end", bool(src) and callee_matches(src[1], "Write>::flush"), "D-io-main")
-        if name == "repl::check_bracket_closed" and kind == "assert" and what.startswith("Overflow"):
-            return allow(2, "D-input-size: parenthesis counter (i32) bounded by the number of tokens of one REPL submission", True, "D-input-size")
+        if name.split("::{closure")[0] == "repl::check_bracket_closed" and kind == "assert" and what.startswith("Overflow"):
+            return allow(4, "D-input-size: parenthesis counter (i32) bounded by the number of tokens of one REPL submission", True, "D-input-size")
         if name == "interpreter::library::native::base::library_map" and what == "Result::unwrap":
             lmr = fb.find("interpreter::library::native::base::library_map_result")
             # the only fallible calls are `append` on freshly built proper parameter lists
